@@ -1,0 +1,114 @@
+//go:build verif
+
+package db
+
+// Contracts for property C10 (hybrid logical vectors). Comment-only; read by /verif/engine.
+
+//@ props C10
+
+// ---- readers (pure: their SMT definition is derived from the real body) ----
+
+//@ func HybridLogicalVector.GetValue
+//@   pure
+//@ func HybridLogicalVector.DominatesSource
+//@   pure
+//@ func HybridLogicalVector.IsVersionKnown
+//@   pure
+//@ func HybridLogicalVector.EqualCV
+//@   pure
+//@ func HybridLogicalVector.isDominating
+//@   pure
+//@ func HybridLogicalVector.maxValueForSource
+//@   pure
+//@ func HybridLogicalVector.GetCurrentVersion
+//@   pure
+//@ func CreateVersion
+//@   pure
+
+// Well-formedness: no source is listed twice (cv/pv and mv/pv are disjoint; cv and mv may share a source).
+//@ pred hlvWF(h *HybridLogicalVector) bool
+//@   is !(h.SourceID in h.PreviousVersions) && (forall s string :: {s in h.MergeVersions} {s in h.PreviousVersions} !((s in h.MergeVersions) && (s in h.PreviousVersions)))
+
+// The value the vector records for a source (0 when absent), and whether it records one.
+//@ pred hval(h *HybridLogicalVector, s string) uint64
+//@   is fst(h.GetValue(s))
+//@ pred hhas(h *HybridLogicalVector, s string) bool
+//@   is snd(h.GetValue(s))
+
+//@ lemma GetValue_spec(h *HybridLogicalVector, s string)
+//@   requires h != nil
+//@   ensures[found]  hhas(h, s) <==> s != "" && (s == h.SourceID || (s in h.MergeVersions) || (s in h.PreviousVersions))
+//@   ensures[value]  hhas(h, s) ==> hval(h, s) == ite(s == h.SourceID, h.Version, ite(s in h.MergeVersions, h.MergeVersions[s], h.PreviousVersions[s]))
+//@   ensures[absent] !hhas(h, s) ==> hval(h, s) == 0
+
+//@ lemma Dominates_spec(h *HybridLogicalVector, v Version)
+//@   requires h != nil
+//@   ensures[dominates] h.DominatesSource(v) <==> hhas(h, v.SourceID) && hval(h, v.SourceID) >= v.Value
+//@   ensures[known]     h.IsVersionKnown(v) <==> h.DominatesSource(v)
+
+// the version floor used when generating a new local version never undercuts a recorded value
+//@ lemma maxValue_floor(h *HybridLogicalVector, s string)
+//@   requires h != nil && hlvWF(h) && s != ""
+//@   ensures[floor] h.maxValueForSource(s) >= hval(h, s)
+//@   ensures[mv]    (s in h.MergeVersions) ==> h.maxValueForSource(s) >= h.MergeVersions[s]
+
+//@ func HybridLogicalVector.ExtractCurrentVersionFromHLV
+//@   requires hlv != nil
+//@   ensures[cv] result != nil && result.SourceID == hlv.SourceID && result.Value == hlv.Version
+
+// ---- conflict detection ----
+
+//@ extern func maps.Equal[db.HLVVersions,db.HLVVersions,string,uint64]
+//@   inert
+//@   ensures result <==> (forall k string :: {k in m1} {k in m2} ((k in m1) <==> (k in m2)) && ((k in m1) ==> m1[k] == m2[k]))
+
+//@ pred sameMerge(a *HybridLogicalVector, b *HybridLogicalVector) bool
+//@   is len(a.MergeVersions) != 0 && len(b.MergeVersions) != 0 && (forall k string :: {k in a.MergeVersions} {k in b.MergeVersions} ((k in a.MergeVersions) <==> (k in b.MergeVersions)) && ((k in a.MergeVersions) ==> a.MergeVersions[k] == b.MergeVersions[k]))
+
+//@ func IsInConflict
+//@   requires localHLV != nil && incomingHLV != nil
+//@   ensures[present]  result == HLVNoConflictRevAlreadyPresent <==> localHLV.EqualCV(incomingHLV) || (!incomingHLV.DominatesSource(Version{SourceID: localHLV.SourceID, Value: localHLV.Version}) && localHLV.DominatesSource(Version{SourceID: incomingHLV.SourceID, Value: incomingHLV.Version}))
+//@   ensures[accepted] result == HLVNoConflict <==> !localHLV.EqualCV(incomingHLV) && (incomingHLV.DominatesSource(Version{SourceID: localHLV.SourceID, Value: localHLV.Version}) || (!localHLV.DominatesSource(Version{SourceID: incomingHLV.SourceID, Value: incomingHLV.Version}) && sameMerge(incomingHLV, localHLV)))
+//@   ensures[conflict] result == HLVConflict <==> !localHLV.EqualCV(incomingHLV) && !incomingHLV.DominatesSource(Version{SourceID: localHLV.SourceID, Value: localHLV.Version}) && !localHLV.DominatesSource(Version{SourceID: incomingHLV.SourceID, Value: incomingHLV.Version}) && !sameMerge(incomingHLV, localHLV)
+//@   ensures[frame]    localHLV.Version == old(localHLV.Version) && incomingHLV.Version == old(incomingHLV.Version)
+
+// ---- mutators ----
+
+//@ pred pvUnchanged(h *HybridLogicalVector) bool
+//@   is forall k string :: {k in h.PreviousVersions} ((k in h.PreviousVersions) <==> old(k in h.PreviousVersions)) && ((k in h.PreviousVersions) ==> h.PreviousVersions[k] == old(h.PreviousVersions[k]))
+//@ pred mvUnchanged(h *HybridLogicalVector) bool
+//@   is forall k string :: {k in h.MergeVersions} ((k in h.MergeVersions) <==> old(k in h.MergeVersions)) && ((k in h.MergeVersions) ==> h.MergeVersions[k] == old(h.MergeVersions[k]))
+
+//@ func HybridLogicalVector.SetPreviousVersion
+//@   requires hlv != nil && (hlv.PreviousVersions == nil || hlv.PreviousVersions != hlv.MergeVersions)
+//@   modifies hlv.PreviousVersions, elems(hlv.PreviousVersions)
+//@   ensures[keys]   forall k string :: {k in hlv.PreviousVersions} (k in hlv.PreviousVersions) <==> old(k in hlv.PreviousVersions) || k == source
+//@   ensures[value]  hlv.PreviousVersions[source] == version
+//@   ensures[others] forall k string :: {hlv.PreviousVersions[k]} k != source ==> hlv.PreviousVersions[k] == old(hlv.PreviousVersions[k])
+//@   ensures[mv]     mvUnchanged(hlv)
+//@   ensures[fresh]  hlv.PreviousVersions != nil && (old(hlv.PreviousVersions) != nil ==> hlv.PreviousVersions == old(hlv.PreviousVersions)) && hlv.PreviousVersions != hlv.MergeVersions
+
+//@ func HybridLogicalVector.AddMergeVersion
+//@   requires hlv != nil && (hlv.PreviousVersions == nil || hlv.PreviousVersions != hlv.MergeVersions)
+//@   modifies hlv.MergeVersions, elems(hlv.MergeVersions), elems(hlv.PreviousVersions)
+//@   ensures[mv-keys]   forall k string :: {k in hlv.MergeVersions} (k in hlv.MergeVersions) <==> old(k in hlv.MergeVersions) || k == source
+//@   ensures[mv-value]  hlv.MergeVersions[source] == version
+//@   ensures[mv-others] forall k string :: {hlv.MergeVersions[k]} k != source ==> hlv.MergeVersions[k] == old(hlv.MergeVersions[k])
+//@   ensures[pv-keys]   forall k string :: {k in hlv.PreviousVersions} (k in hlv.PreviousVersions) <==> old(k in hlv.PreviousVersions) && k != source
+//@   ensures[pv-others] forall k string :: {hlv.PreviousVersions[k]} k != source ==> hlv.PreviousVersions[k] == old(hlv.PreviousVersions[k])
+//@   ensures[fresh]     hlv.MergeVersions != nil && (hlv.PreviousVersions == nil || hlv.PreviousVersions != hlv.MergeVersions)
+
+// InvalidateMV: every merge version other than the cv source moves to the previous versions; nothing else changes.
+//@ func HybridLogicalVector.InvalidateMV
+//@   requires hlv != nil && hlvWF(hlv) && (hlv.PreviousVersions == nil || hlv.PreviousVersions != hlv.MergeVersions)
+//@   modifies hlv.MergeVersions, hlv.PreviousVersions, elems(hlv.PreviousVersions)
+//@   ensures[mv-empty] hlv.MergeVersions == nil
+//@   ensures[pv-keys]  forall k string :: {k in hlv.PreviousVersions} (k in hlv.PreviousVersions) <==> old(k in hlv.PreviousVersions) || (old(k in hlv.MergeVersions) && k != hlv.SourceID)
+//@   ensures[pv-moved] forall k string :: {hlv.PreviousVersions[k]} old(k in hlv.MergeVersions) && k != hlv.SourceID ==> hlv.PreviousVersions[k] == old(hlv.MergeVersions[k])
+//@   ensures[pv-kept]  forall k string :: {hlv.PreviousVersions[k]} !(old(k in hlv.MergeVersions) && k != hlv.SourceID) ==> hlv.PreviousVersions[k] == old(hlv.PreviousVersions[k])
+//@   ensures[wf]       hlvWF(hlv)
+//@   loop 1 invariant[mv]       mvUnchanged(hlv) && (hlv.PreviousVersions == nil || hlv.PreviousVersions != hlv.MergeVersions)
+//@   loop 1 invariant[pv-keys]  forall k string :: {k in hlv.PreviousVersions} (k in hlv.PreviousVersions) <==> old(k in hlv.PreviousVersions) || ((k in #visited) && k != hlv.SourceID)
+//@   loop 1 invariant[pv-moved] forall k string :: {hlv.PreviousVersions[k]} (k in #visited) && k != hlv.SourceID ==> hlv.PreviousVersions[k] == old(hlv.MergeVersions[k])
+//@   loop 1 invariant[pv-kept]  forall k string :: {hlv.PreviousVersions[k]} !((k in #visited) && k != hlv.SourceID) ==> hlv.PreviousVersions[k] == old(hlv.PreviousVersions[k])
+//@   loop 1 invariant[visited]  forall k string :: {k in #visited} (k in #visited) ==> old(k in hlv.MergeVersions)
